@@ -181,6 +181,19 @@ fn gen_c10(ch: &mut Chunker, r: &mut Rng, thorough: bool, scale: usize) {
         s.push_str(&rand_word(r, 3));
         rec_dw(ch, &s);
     }
+    // (e) ESC inside sequences: every string over {ESC, ']', '\\', 'a'} (an OSC payload may contain ESCs; the sequence
+    //     still ends at the first BEL or "ESC \\"), and runs of ESC before a terminator / a final byte
+    for s in all_strings(&['\u{1b}', ']', '\\', 'a'], if thorough { 7 } else { 6 }) {
+        rec_dw(ch, &s);
+    }
+    for k in 0..6 {
+        let run = "\u{1b}".repeat(k);
+        for (head, tail) in [("\u{1b}]", "\u{1b}\\"), ("\u{1b}]0;t", "\u{1b}\\"), ("\u{1b}]8;;x", "\u{7}"), ("\u{1b}[", "m"), ("\u{1b}[3", "\u{1b}[m")] {
+            for after in ["hello", "\u{4f60}", "", "\\x"] {
+                rec_dw(ch, &format!("a{}{}{}{}", head, run, tail, after));
+            }
+        }
+    }
 }
 
 fn gen_c11(ch: &mut Chunker, r: &mut Rng, thorough: bool, scale: usize) {
